@@ -134,6 +134,8 @@ pub struct TaskInfo {
     pub blocks: u64,
     /// how many of those were waits for a (simulated) mutex held by another task
     pub lock_waits: u64,
+    /// failed compare-exchange operations (a lock-free retry loop costs steps without waiting for anyone)
+    pub cas_failures: u64,
     pub steps: u64,
     pub parent: Option<TaskId>,
 }
@@ -479,6 +481,7 @@ impl Kernel {
                 ever_blocked: false,
                 blocks: 0,
                 lock_waits: 0,
+                cas_failures: 0,
                 steps: 0,
                 parent,
             },
@@ -837,6 +840,11 @@ impl Kernel {
         st.tasks[me].info.lock_waits += 1;
     }
 
+    pub fn note_cas_failure(&self, me: TaskId) {
+        let mut st = self.lock();
+        st.tasks[me].info.cas_failures += 1;
+    }
+
     pub fn wake(&self, res: u64) {
         let mut st = self.lock();
         if st.aborting {
@@ -976,6 +984,13 @@ pub fn my_stats3() -> (u64, u64, u64) {
             (i.steps, i.blocks.saturating_sub(i.lock_waits), i.lock_waits)
         }
         None => (0, 0, 0),
+    }
+}
+
+pub fn my_cas_failures() -> u64 {
+    match current() {
+        Some((k, me)) => k.lock().tasks[me].info.cas_failures,
+        None => 0,
     }
 }
 
